@@ -80,6 +80,9 @@ def analyse(prog, lines):
     nodeget_steps = {}       # (tid,k) -> steps spent in Node::get / cooldown (excluded from the C08 bound)
     writes_by_cmd = {}       # (tid,k) -> list of (c, old, new)
     handle_val = {}          # handle -> (kind, addr, oid)
+    cache_idx = {}           # cache handle -> (container, lower bound of the index of the value it holds)
+    completed_idx = {}       # container -> index of the latest write whose call has returned
+    fresh_bound = {}         # (tid, k) -> completed_idx at the start of the command
     rets = {}
     complete = not any(e.kind in ("DEADLOCK", "LIMIT", "REPLAY-DIVERGED", "SOLO-DONE", "SOLO-LIMIT", "SOLO-BLOCKED") for e in evs)
     max_load_steps = 0
@@ -115,6 +118,7 @@ def analyse(prog, lines):
             k = int(e.f[0])
             cur_cmd[t] = k
             hist_pos_at_cmd[(t, k)] = {c: len(hist[c]) - 1 for c in hist}
+            fresh_bound[(t, k)] = dict(completed_idx)
             steps_in_cmd[(t, k)] = 0
             nodeget_steps[(t, k)] = 0
         elif e.kind == "ACC":
@@ -144,6 +148,29 @@ def analyse(prog, lines):
             if len(e.f) > 2 and e.f[2] != "?":
                 addr = int(e.f[2])
             rets[(t, k)] = (kind, addr)
+            for (wc, wold, wnew) in writes_by_cmd.get((t, k), []):
+                # the write of this (now returned) call is "completed"
+                for j in range(len(hist[wc]) - 1, 0, -1):
+                    if hist[wc][j][0] == wnew:
+                        completed_idx[wc] = max(completed_idx.get(wc, 0), j)
+                        break
+            # C16: a cache returns a value of its container, never older than what it returned before,
+            # and at least as new as any store that had completed before the call
+            if name == "cachenew":
+                cache_idx[int(cmd[2])] = (int(cmd[1]), hist_pos_at_cmd[(t, k)][int(cmd[1])])
+            if name == "cacheload" and addr is not None and int(cmd[1]) in cache_idx:
+                cc, last = cache_idx[int(cmd[1])]
+                oid = oid_at.get(addr) if addr else None
+                lo = max(last, fresh_bound.get((t, k), {}).get(cc, 0))
+                js = [j for j in range(len(hist[cc])) if hist[cc][j] == (addr, oid)]
+                if not js:
+                    findings.append(("C16", "thread %d cmd %d (%s) returned (%d, object %s) which was never stored in container %d" % (t, k, " ".join(cmd), addr, oid, cc)))
+                elif not [j for j in js if j >= last]:
+                    findings.append(("C16", "thread %d cmd %d (%s) went backwards: returned write #%s of container %d after having returned write #%d" % (t, k, " ".join(cmd), js, cc, last)))
+                elif not [j for j in js if j >= lo]:
+                    findings.append(("C16", "thread %d cmd %d (%s) returned write #%s of container %d although write #%d had completed before the call" % (t, k, " ".join(cmd), js, cc, lo)))
+                else:
+                    cache_idx[int(cmd[1])] = (cc, min(j for j in js if j >= lo))
             # C03/C12: loads return a value stored in this container within the call's interval
             if name in ("load", "loadfull", "cas", "rcu") and addr is not None:
                 c = int(cmd[1])
@@ -193,6 +220,10 @@ def analyse(prog, lines):
                         findings.append(("C05", "thread %d cmd %d (%s): replaced %d which is not current %d" % (t, k, " ".join(cmd), ws[0][1], cur)))
                     if addr == cur and not ws:
                         findings.append(("C05", "thread %d cmd %d (%s): returned current (%d) but did not store new" % (t, k, " ".join(cmd), cur)))
+            if name == "rcu" and kind == "P":
+                ws = writes_by_cmd.get((t, k), [])
+                if ws:
+                    findings.append(("C18", "thread %d cmd %d (%s): the closure panicked but the call wrote %s" % (t, k, " ".join(cmd), ws)))
             if name == "rcu" and addr is not None:
                 ws = writes_by_cmd.get((t, k), [])
                 if len(ws) != 1 or ws[0][1] != addr:
